@@ -253,6 +253,35 @@ func driveC04(p *Pool, r *evid.Run) {
 		exploreAll(p, r, "C04", disk, 1, 0)
 	}
 
+	// one spawn site at a time arbitrarily slow, with a kill/cancel/teardown at every other step
+	probe4 := exploreAll(p, r, "C04", []Scn{{Kind: "xfer", Src: "small", Dst: "small-dirty", Cap: 64, Policy: "rr", Notify: true, SelectAlts: true}}, 0, 0)
+	if len(probe4) > 0 && probe4[0] != nil {
+		var roots4 []Scn
+		for _, role := range probe4[0].Roles {
+			roots4 = append(roots4, Scn{Kind: "xfer", Src: "small", Dst: "small-dirty", Cap: 1, Policy: "slow:" + role, Notify: true, SelectAlts: true})
+		}
+		rr4 := exploreAll(p, r, "C04", roots4, 0, 0)
+		var slow []Scn
+		for i, root := range roots4 {
+			if rr4[i] == nil || rr4[i].Info == nil {
+				continue
+			}
+			step := 2
+			if !quick {
+				step = 1
+			}
+			for _, kind := range []string{"killR", "killS", "cancelR", "cancelS", "break"} {
+				for k := 0; k < rr4[i].Info["steps"]; k += step {
+					sc := root
+					sc.Fault = Fault{Kind: kind, K: k}
+					slow = append(slow, sc)
+				}
+			}
+		}
+		r.Add("fault_scenarios", int64(len(slow)))
+		exploreAll(p, r, "C04", slow, 0, 0)
+	}
+
 	// large fan-out: more than 132 requests outstanding while the link is stalled
 	var fan []Scn
 	fanRoot := Scn{Kind: "xfer", Src: "fan", Dst: "empty", Cap: 1, Policy: "starve"}
